@@ -171,9 +171,13 @@ class ExprMixin:
         keys = [self.eval(k, st, frame) for k in n.keys if k is not None]
         vals = [self.eval(v, st, frame) for v in n.values]
         quals = frozenset({EMPTYQ}) if not vals else frozenset()
-        return AV(types=frozenset({"dict"}), alias=frozenset({self.fresh_loc(frame, n)}),
-                  elem=(replace(join_all(vals), const=NOCONST) if vals else None),
-                  key=(replace(join_all(keys), const=NOCONST) if keys else None), quals=quals)
+        res = AV(types=frozenset({"dict"}), alias=frozenset({self.fresh_loc(frame, n)}),
+                 elem=(replace(join_all(vals), const=NOCONST) if vals else None),
+                 key=(replace(join_all(keys), const=NOCONST) if keys else None), quals=quals)
+        if len(keys) == len(vals):
+            for k, v in zip(keys, vals):      # which key is bound to which value (queried by pairing rules)
+                self.ev(frame, st, "dictpair", n, recv=res, args=(k,), value=v)
+        return res
 
     # ------------------------------------------------------- comprehensions
     def _comp(self, n, elt_nodes, kind, st, frame):
@@ -326,6 +330,15 @@ class ExprMixin:
                 r = self.try_dunder(right, "__contains__", [cur], n, st, frame)
                 if r is not None:
                     deps |= r.deps
+                if len(n.ops) == 1 and cur.has_const() and _plain(cur.const):
+                    table = self._module_table(cnode, st, frame)
+                    if table is not None:
+                        try:
+                            hit = cur.const in table
+                        except TypeError:
+                            hit = None
+                        if hit is not None:
+                            const = hit if isinstance(op, ast.In) else not hit
             elif isinstance(op, (ast.Eq, ast.NotEq)):
                 self.ev(frame, st, "compare", n, args=(cur, right), attr="eq" if isinstance(op, ast.Eq) else "ne")
                 r = self.try_dunder(cur, "__eq__", [right], n, st, frame, only_interesting=True)
@@ -348,6 +361,19 @@ class ExprMixin:
                              ast.Gt: cur.const > right.const, ast.GtE: cur.const >= right.const}[type(op)]
             cur = right
         return AV(types=frozenset({"bool"}), deps=frozenset(deps), const=const)
+
+    def _module_table(self, node, st, frame):
+        """The constant-folded content of a module-level table named by `node` (an upper-case module constant that no
+        local shadows): the repository treats these lists / dicts / strings as constants."""
+        if not isinstance(node, ast.Name) or node.id in st.env or not node.id.isupper():
+            return None
+        try:
+            val = self.prog.const(frame.module.name, node.id)
+        except Exception:
+            return None
+        if isinstance(val, (list, tuple, set, frozenset, str, dict)):
+            return val
+        return None
 
     def x_IfExp(self, n, st, frame):
         c = self.eval(n.test, st, frame)
